@@ -18,6 +18,7 @@ import (
 	"math/rand"
 	"strings"
 	"sync"
+	"sync/atomic"
 	"testing"
 	"time"
 )
@@ -402,4 +403,121 @@ func c19ConfigSpace(run *vfRun, w *vfWorld, htp string) {
 			b.Get(p, "/x")
 		}
 	})
+}
+
+// c19HostileFraming (round 6): the identity provider answers with HTTP messages whose FRAMING is hostile — absurd, overflowing,
+// negative, duplicate Content-Length values, chunk sizes near 2^64, no framing at all, thousands of header fields, a gzip
+// label on garbage — on every call of a login (code redemption, profile / user-info, validation) and of a refresh, for the OIDC
+// provider and a generic OAuth2 provider (whose calls go through pkg/requests). A length a remote party announces must never
+// reach an allocation or an index unchecked. Declared sizes are either tiny or beyond the allocator's limit (>= 2^50), so that
+// code which did trust them would panic rather than eat the machine's memory.
+func c19HostileFraming(run *vfRun, t *testing.T) {
+	w := vfNewWorld(t)
+	defer w.Close()
+	body := `{"access_token":"at","token_type":"Bearer","expires_in":3600,"email":"f@example.com","sub":"f","active":true}`
+	hdr := func(lines ...string) []byte {
+		return []byte("HTTP/1.1 200 OK\r\nContent-Type: application/json\r\n" + strings.Join(lines, "\r\n") + "\r\n\r\n" + body)
+	}
+	var many strings.Builder
+	for i := 0; i < 3000; i++ {
+		fmt.Fprintf(&many, "X-Pad-%d: %d\r\n", i, i)
+	}
+	framings := []struct {
+		name string
+		raw  []byte
+	}{
+		{"content-length=2^50", hdr("Content-Length: 1125899906842624")},
+		{"content-length=2^62", hdr("Content-Length: 4611686018427387904")},
+		{"content-length=2^63-1", hdr("Content-Length: 9223372036854775807")},
+		{"content-length=2^64", hdr("Content-Length: 18446744073709551616")},
+		{"content-length=-1", hdr("Content-Length: -1")},
+		{"content-length=-2^62", hdr("Content-Length: -4611686018427387904")},
+		{"content-length=hex", hdr("Content-Length: 0x7fffffffffffffff")},
+		{"content-length-twice", hdr("Content-Length: 5", "Content-Length: 4611686018427387904")},
+		{"content-length=0-with-body", hdr("Content-Length: 0")},
+		{"chunk-size=2^64-1", []byte("HTTP/1.1 200 OK\r\nContent-Type: application/json\r\nTransfer-Encoding: chunked\r\n\r\nffffffffffffffff\r\n" + body)},
+		{"chunk-size=2^63-1", []byte("HTTP/1.1 200 OK\r\nContent-Type: application/json\r\nTransfer-Encoding: chunked\r\n\r\n7fffffffffffffff\r\n" + body)},
+		{"chunk-size-20-digits", []byte("HTTP/1.1 200 OK\r\nContent-Type: application/json\r\nTransfer-Encoding: chunked\r\n\r\n10000000000000000000\r\n" + body)},
+		{"chunked+content-length", []byte("HTTP/1.1 200 OK\r\nContent-Type: application/json\r\nTransfer-Encoding: chunked\r\nContent-Length: 4611686018427387904\r\n\r\n3\r\n{}\n\r\n0\r\n\r\n")},
+		{"no-framing-until-close", []byte("HTTP/1.0 200 OK\r\nContent-Type: application/json\r\n\r\n" + body)},
+		{"status-line-only", []byte("HTTP/1.1 200 OK\r\n\r\n")},
+		{"bad-status-line", []byte("HTTP/1.1 200\r\n\r\n" + body)},
+		{"3000-header-fields", []byte("HTTP/1.1 200 OK\r\nContent-Type: application/json\r\n" + many.String() + "Content-Length: " + fmt.Sprint(len(body)) + "\r\n\r\n" + body)},
+		{"gzip-label-on-garbage", hdr("Content-Encoding: gzip", "Content-Length: "+fmt.Sprint(len(body)))},
+		{"1xx-then-close", []byte("HTTP/1.1 100 Continue\r\n\r\n")},
+	}
+	iss := w.IdP.Issuer
+	insts := []struct {
+		name  string
+		flags []string
+		calls []string
+	}{
+		{"framing/oidc", []string{"--cookie-refresh=1s", "--cookie-expire=1h"}, []string{"token.code", "userinfo", "token.refresh", "jwks"}},
+		{"framing/generic-oauth2", []string{"--provider=keycloak", "--login-url=" + iss + "/authorize", "--redeem-url=" + iss + "/token", "--validate-url=" + iss + "/userinfo", "--profile-url=" + iss + "/userinfo",
+			"--scope=openid email", "--cookie-refresh=1s", "--cookie-expire=1h"}, []string{"token.code", "userinfo"}},
+	}
+	var target, current atomic.Value
+	target.Store("")
+	current.Store([]byte(nil))
+	var fired int64
+	w.IdP.Set(func(c *vfIdPCfg) {
+		c.Hook = func(ev *vfIdPEvent) *vfIdPReply {
+			if tk := target.Load().(string); tk != "" && ev.Kind == tk {
+				atomic.AddInt64(&fired, 1)
+				return &vfIdPReply{Raw: current.Load().([]byte)}
+			}
+			return nil
+		}
+	})
+	defer w.IdP.Set(func(c *vfIdPCfg) { c.Hook = nil })
+	for _, in := range insts {
+		p, err := w.NewProxy(in.flags...)
+		if err != nil {
+			c19Fatal(run, "config %s: %v", in.name, err)
+		}
+		c19Observe(run, p, in.name, "hostile-framing")
+		// sessions for the stale flow (refresh / re-validation): one per framing and call
+		type stale struct{ cookie string }
+		var pool []stale
+		for k := 0; k < len(framings)*2; k++ {
+			b := vfNewBrowser("")
+			// no preferred_username in the token: the OIDC provider then consults the profile endpoint at login
+			if _, _, err := b.Login(p, vfIdentity{Sub: fmt.Sprintf("fr-%d", k), Email: fmt.Sprintf("fr%d@example.com", k)}, "/"); err != nil {
+				c19Fatal(run, "config %s: login: %v", in.name, err)
+			}
+			pool = append(pool, stale{vfCookieHeader(b.Jar.For("proxy.test", "/", false))})
+		}
+		time.Sleep(1100 * time.Millisecond) // older than the refresh period now
+		next := 0
+		for _, call := range in.calls {
+			for _, fr := range framings {
+				current.Store(fr.raw)
+				before := atomic.LoadInt64(&fired)
+				if call == "token.refresh" || (call == "userinfo" && next < len(pool) && in.name == "framing/generic-oauth2" && next%2 == 1) || call == "jwks" {
+					// stale session: refresh grant (OIDC) / re-validation (generic provider); jwks is only re-fetched for an unknown key id — counted when it fires
+					if next < len(pool) {
+						target.Store(call)
+						p.Do(vfGET("/x").H("Cookie", pool[next].cookie))
+						next++
+					}
+				}
+				b := vfNewBrowser("")
+				l, err := b.StartLogin(p, vfIdentity{Sub: "fr-login", Email: "frl@example.com"}, "/")
+				if err == nil {
+					target.Store(call)
+					b.Get(p, l.CallbackTarget(p))
+				}
+				target.Store("")
+				if atomic.LoadInt64(&fired) > before {
+					run.Count("hostile_framing_replies_delivered", atomic.LoadInt64(&fired)-before)
+					run.Eval(fmt.Sprintf("%s|%s|%s", in.name, call, fr.name))
+				}
+			}
+		}
+		// the instance still works
+		b := vfNewBrowser("")
+		if _, _, err := b.Login(p, vfStdIdentity, "/"); err != nil {
+			run.Violation("c19:instance-unusable-after-hostile-framing", fmt.Sprintf("%s: a clean login after the hostile-framing cases fails: %v", in.name, err), map[string]interface{}{"flags": p.Flags})
+		}
+	}
 }
